@@ -124,6 +124,39 @@ def allowed_work(rule_name):
     return acc
 
 
+def refusal_work(rule_name):
+    """a name the rule does not allow is refused with ChildNotAllowedError: every known element name outside the rule's
+    names (+ foreign spellings), against an empty parent and a parent holding the shortest valid child sequence;
+    rules that declare no children at all refuse everything"""
+    ra = ruleinfo.automata(rule_name)
+    acc = core.Acc()
+    core.reset_store()
+    parent, direct = ruleinfo.parent_for(rule_name, node_id="P")
+    robj = mrule.Rule(rule_name)
+    if parent.name == "metadata":
+        return acc
+    seqs = [()]
+    w = ruleinfo.shortest_accepted(ra)
+    if w:
+        seqs.append(tuple(w))
+    outside = [x for x in sorted(mrule.node_mappings) if x not in ra.names] + ["zzForeignElement", "", "Title", "eml:eml"]
+    for s in seqs:
+        parent.children = [Node(a, id=f"k{i}") for i, a in enumerate(s)]
+        for x in outside:
+            acc.count("refusals")
+            acc.outcome("foreign")
+            case = {"rule": rule_name, "seq": list(s), "refused_candidate": x}
+            try:
+                idx = robj.child_insert_index(parent, Node(x, id="cand"))
+                exc = None
+            except Exception as e:  # noqa
+                idx, exc = None, e
+            if not isinstance(exc, ChildNotAllowedError):
+                acc.add_problem(problem("foreign_not_refused", case, expected="ChildNotAllowedError",
+                                        observed=repr(exc) if exc else idx, rule=rule_name))
+    return acc
+
+
 def plan(tier):
     t = TIERS[tier]
     items = []
@@ -161,6 +194,9 @@ def plan(tier):
 def replay(case):
     rn = case["rule"]
     ra = ruleinfo.automata(rn)
+    if "refused_candidate" in case:
+        a = refusal_work(rn)
+        return [p for ps in a.problems.values() for p in ps if p["case"] == case]
     if "allowed_query" in case:
         a = allowed_work(rn)
         return [p for ps in a.problems.values() for p in ps if p["case"] == case]
@@ -179,6 +215,7 @@ def explore(tier):
     items, info, outside = plan(tier)
     accs = core.pmap(work, items)
     accs += core.pmap(allowed_work, sorted(info) + outside)
+    accs += core.pmap(refusal_work, sorted(ruleinfo.table()))
     acc = core.merge_all(accs)
     ev = acc.counts.get("evaluations", 0)
     expected = sum(v["evaluations"] for v in info.values())
@@ -188,7 +225,7 @@ def explore(tier):
         "states": sum(v["dfa_states"] for v in info.values()),
         "transitions": sum(v["dfa_transitions"] for v in info.values()),
         "traces_validated_against_impl": ev,
-        "evaluations": ev + acc.counts.get("allowed_queries", 0),
+        "evaluations": ev + acc.counts.get("allowed_queries", 0) + acc.counts.get("refusals", 0),
         "distinct_nontrivial": acc.outcomes.get("restorable", 0) + acc.outcomes.get("foreign", 0),
         "exhaustive": True,
         "rule": "per rule: every existing child sequence of length <= L over the rule's names x every candidate name "
@@ -196,7 +233,10 @@ def explore(tier):
                 "minimal DFA: bounds, declared order preserved, validity restored whenever some position restores it. "
                 "distinct_nontrivial = (sequence,candidate) pairs where some position restores validity, plus refused "
                 "foreign candidates; all pairs are distinct by construction. is_allowed_child is compared with the "
-                "DFA's useful transitions for every known element name.",
+                "DFA's useful transitions for every known element name. Every rule (also those declaring no children) is asked to "
+                "place every known element name it does not list and four foreign spellings: each must be refused with "
+                "ChildNotAllowedError.",
+        "refusals_checked": acc.counts.get("refusals", 0),
         "rules_checked": len(info),
         "rules_outside_claim_duplicate_child_names": outside,
         "per_rule": info,
